@@ -588,8 +588,8 @@ def o_c09(recs):
             continue
         b, a = r.before, r.after
         idx = staged(b)
-        if idx is None or fd_conflict(b):
-            continue
+        if idx is None or fd_conflict(b) or self_conflicting(idx):
+            continue        # (a staging area holding d and d/x cannot be written to a work tree)
         args = [x for x in st.argv[1:] if x not in (b"--", b"--staged")]
         if st.name == "restore":
             sel, ok = [], bool(args)
